@@ -144,7 +144,14 @@ Proof.
 Qed.
 
 Lemma dec_to_vec_self bs : bs <> [] -> dec_to_vec bs = Some bs.
-Proof. apply sign_extend_self. Qed.
+Proof.
+  intros H. unfold dec_to_vec.
+  assert (E : N.max 1 (lenN bs) = lenN bs) by (destruct bs; [congruence|rewrite lenN_cons; lia]).
+  rewrite E. apply sign_extend_self. exact H.
+Qed.
+
+Lemma dec_to_vec_empty : dec_to_vec [] = Some [0].
+Proof. reflexivity. Qed.
 
 (* ---- UUID text ---- *)
 Lemma hexdig_unhex n : n < 16 -> unhex (hexdig n) = Some n.
@@ -203,7 +210,7 @@ Proof.
   rewrite (take_app_n 4) by (rewrite hex_of_length; lia).
   rewrite (take_app_n 4) by (rewrite hex_of_length; lia).
   assert (E : (lenN (hex_of g5) =? 12) = true) by (apply N.eqb_eq; rewrite hex_of_length; lia).
-  rewrite E. rewrite <- !hex_of_app. apply unhex_pairs_hex. exact A.
+  rewrite E. cbn [N.eqb Pos.eqb andb]. rewrite <- !hex_of_app. apply unhex_pairs_hex. exact A.
 Qed.
 
 Lemma uuid_text_facts b : lenN b = 16 -> all_bytes b = true ->
@@ -294,4 +301,12 @@ Proof.
       * right. split; [reflexivity|exact Hh].
       * left. split; [reflexivity|]. apply N.ltb_lt. apply N.leb_gt in Hh. exact Hh.
   - rewrite lenN_app. unfold lenN at 1. rewrite repeat_n_length. lia.
+Qed.
+
+Lemma minimal_all_bytes u : all_bytes u = true -> all_bytes (minimal u) = true.
+Proof.
+  induction u as [|b0 r IH]; intros H; [reflexivity|].
+  cbn [minimal]. destruct r as [|b1 r']; [exact H|].
+  destruct (((b0 =? 0) && (b1 <? 128)) || ((b0 =? 255) && (128 <=? b1))); [|exact H].
+  apply IH. cbn [all_bytes] in H. apply andb_true_iff in H as [_ H]. exact H.
 Qed.
